@@ -37,9 +37,9 @@ class VmStackList(TlbScheme):
         builder = Builder()
         if len(data) == 0:
             return builder.end_cell()
-        value = data.pop()
-        builder.store_ref(cls.serialize(data))
-        return builder.store_cell(VmStackValue.serialize(value)).end_cell()
+        # work on a shortened copy: the caller's list must stay intact (serializing twice gives the same cell)
+        builder.store_ref(cls.serialize(data[:-1]))
+        return builder.store_cell(VmStackValue.serialize(data[-1])).end_cell()
 
     @classmethod
     def deserialize(cls, cell_slice: Slice, n_p_1: int):  # n_p_1 stands for n plus 1 or n + 1
@@ -371,7 +371,8 @@ class VmControlData(TlbScheme):
 
         if getattr(value, 'stack', None) is not None:
             builder.store_bit_int(1)
-            builder.store_cell(value.stack)
+            # deserialize returns the captured stack as a list of values: accept that form as well as an already serialized cell
+            builder.store_cell(VmStack.serialize(value.stack) if isinstance(value.stack, list) else value.stack)
         else:
             builder.store_bit_int(0)
 
@@ -407,6 +408,14 @@ class VmSaveList(TlbScheme):
     """
     @classmethod
     def serialize(cls, value: "HashMap") -> Cell:
+        if isinstance(value, dict):
+            # the form deserialize returns: {register: Slice holding a VmStackValue}
+            hm = HashMap(4, value_serializer=lambda src, dest: dest.store_slice(src.copy()))
+            for k, v in value.items():
+                hm.set_int_key(k, v)
+            value = hm.serialize()
+        elif isinstance(value, HashMap):
+            value = value.serialize()
         return Builder().store_dict(value).end_cell()
 
     @classmethod
